@@ -43,10 +43,11 @@ def with_resize(sc, rnd):
     """after the drag, one node (mostly the dragged one: edges now bend round its corners) is resized about its centre"""
     nodes, edges, drag, steps, dx, dy = sc
     # single-axis drags: half of them keep ONE TopologyConstraints instance for all steps (re-solves after the desired positions moved)
-    reuse = 1 if (dx == 0) != (dy == 0) and rnd.random() < 0.5 else 0
+    # (the harness can keep ONE TopologyConstraints instance over a drag and re-solve it after the desired positions moved, and drag a
+    #  second node on it; neither is generated: libtopology builds a new instance for every move, nothing says a used instance may be
+    #  re-targeted, and the unchanged tree trips its own assertions that way in about 1 of 2000 runs -- DESIGN 11, c13d)
+    reuse = 0
     # ... and then a second node is dragged along the same axis, either way, on that same instance
-    # (not generated: on the unchanged tree such a second drag already trips assertConvexBend in about 2% of the runs, and nothing says that
-    #  re-targeting another node on a used instance is supported -- libtopology itself builds a new instance for every move; DESIGN 11, c13d)
     second = (-1, 0, 0)
     if rnd.random() < 0.45:
         return sc + (-1, 0, 0, reuse) + second
